@@ -322,6 +322,22 @@ def run_special():
                        ("constant-zero-then-label", [N(0), ("b", "&", S("fwdl"), N(0xFF))])):
         p = base + [inner_m, outer_m, ("org", N(ORG))] + [("call", "recw", [a]) for a in order] + [("label", "fwdl"), ("data", "db", [N(0xF0)])]
         progs.append((p, "nested-application-" + tag, False))
+    # a macro and a named scope of the caller share their name: an application exports nothing (`name.label` keeps meaning the
+    # named scope's label; `name.label` of a name that only the macro body defines stays undefined for the caller)
+    shared = ("macro", "nsx", ["p"], [("label", "sl"), ("data", "db", [S("p")]), ("label", "only"), ("data", "db", [N(0xEE)])])
+    p = base + [shared, ("org", N(ORG)), ("scope", "nsx", [("label", "sl"), ("data", "db", [N(9)])]), ("call", "nsx", [N(1)]), ("data", "dw", [S("nsx.sl")]),
+                ("call", "nsx", [N(2)]), ("data", "dw", [S("nsx.sl")])]
+    progs.append((p, "macro-and-named-scope-share-a-name", False))
+    p = base + [shared, ("org", N(ORG)), ("call", "nsx", [N(1)]), ("data", "dw", [S("nsx.only")])]
+    progs.append((p, "application-exports-nothing-to-the-caller", False))
+    # late binding: a body may apply a macro that is defined further down, as long as it exists when the body is expanded
+    p = base + [("macro", "user1", ["x"], [("call", "helper1", [("b", "+", S("x"), N(1))])]), ("macro", "helper1", ["y"], [("data", "db", [S("y")])]),
+                ("org", N(ORG)), ("call", "user1", [N(4)]), ("call", "user1", [N(6)])]
+    progs.append((p, "body-applies-a-macro-defined-below-it", True))
+    p = base + [("macro", "ping", ["n"], [("if", S("n"), [("data", "db", [S("n")]), ("call", "pong", [("b", "-", S("n"), N(1))])], None)]),
+                ("macro", "pong", ["n"], [("if", S("n"), [("data", "db", [("b", "+", S("n"), N(0x80))]), ("call", "ping", [("b", "-", S("n"), N(1))])], None)]),
+                ("org", N(ORG)), ("call", "ping", [N(5)])]
+    progs.append((p, "mutually-recursive-macros", False))
     # a named scope inside the body: its exports belong to the application's scope, never to the caller
     scb = [("scope", "sc", [("label", "sl"), ("data", "db", [N(1)])]), ("data", "dw", [S("sc.sl")])]
     p = base + [("macro", "msc", [], scb), ("org", N(ORG)), ("scope", "sc", [("label", "sl"), ("data", "db", [N(9)])]), ("call", "msc", []),
